@@ -164,7 +164,7 @@ def _get(v, path):
     return v
 
 
-def minimise_crash(binary, cid, record_path, kind, workdir, budget=120):
+def minimise_crash(binary, cid, record_path, kind, workdir, budget=40):
     rec = json.load(open(record_path))
     case = rec["case"]
     tries = 0
